@@ -193,8 +193,13 @@ def check(ctx):
     g = S.nbody(ctx, DR + r"group_delays$")
     i_dials = S.param_of_type(g, r"^std::vec::Vec<connection::pool::concurrent_dial::PendingDial>")
     sk = g.call_sites(r"sort_by_key$")
-    ok = len(sk) == 1 and "fn:libp2p_swarm::connection::pool::dial_ranker::score" in render(g.site_expr(sk[0])) and "(p%d)" % i_dials in render(g.site_expr(sk[0]))
-    ctx.ob("group", "sorted by score", ok, sk[0].loc() if sk else "", "dials.sort_by_key(score)")
+    # the sort key function is identified by role: the crate-local fn handed to sort_by_key on the dials parameter
+    keyfn = None
+    if len(sk) == 1:
+        m_ = re.search(r"fn:(libp2p_swarm::connection::pool::dial_ranker::\w+)", render(g.site_expr(sk[0])))
+        keyfn = m_.group(1) if m_ else None
+    ok = len(sk) == 1 and keyfn is not None and "(p%d)" % i_dials in render(g.site_expr(sk[0]))
+    ctx.ob("group", "sorted by score", ok, sk[0].loc() if sk else "", "dials.sort_by_key(<crate-local key fn %s>)" % keyfn)
     dn = [s for s in g.call_sites(r"Iterator>::next$|Iterator::next$") if _iterates_local(g, s, i_dials) or any("(p%d" % i_dials in render(x) for x in _loop_over(g, s))]
     ctx.floor("group", "drain loop", dn, 1)
     X = None
@@ -265,7 +270,7 @@ def check(ctx):
                         okq = okq or (len(parts) >= 2 and any(p_[0] == "local" and any(s2.bb in qreg for s2, _ in S.defs_exprs(g, p_[1])) for p_ in parts))
                 ctx.ob("group", "the TCP start offset is derived from the QUIC delay just assigned", okq, resp[0].loc(), "tcp_start = <this QUIC dial's delay> + tcp_delay")
     # ---- score transport rank
-    sc = S.nbody(ctx, DR + r"score$")
+    sc = S.nbody(ctx, "^" + re.escape(keyfn) + "$") if keyfn else S.nbody(ctx, DR + r"score$")
     # the rank is the first component of the returned sort key
     srv = S.ret_exprs(sc)
     if len(srv) != 1 or srv[0][0] != "agg" or not srv[0][4] or srv[0][4][0][1][0] != "local":
